@@ -1,19 +1,556 @@
-//! lru engine (ops starting with `c`).
-#![allow(unused)]
+//! lru engine (ops starting with `c`): `LruTimeCache<u64, u64>` through `discv5::verif::lru::Lru`.
+//!
+//!   cnew TTL CAP | cins T K V | cget T K | cgm T K W | cpeek T K | clen T | crm T K | csweep T
+//!
+//! The cache reads `Instant::now()`, so the runner works in real time: `T` is the *scripted* time
+//! in milliseconds since `cnew`; before an op the runner sleeps until `start + T·scale` ms and the
+//! cache is created with `ttl = TTL·scale` ms.  Replies and monitors only ever mention scripted
+//! values.  The generator keeps every (stamp, now) pair that an op can compare either clearly
+//! inside the ttl (gap ≤ 0.6·ttl) or clearly outside (gap ≥ 2·ttl + 20 ms).  The runner measures
+//! the real clock around every call; when the real gap of such a pair is not on the same side of
+//! the ttl as the scripted one (a descheduled process), the whole case is re-run from `cnew` with
+//! doubled durations (scale 2, 4, 8) before its replies are used.  This decision is taken from the
+//! clock alone, never from what the cache returned.
 use crate::rng::Rng;
 use crate::util::*;
 use crate::{Runner, Stats};
+use discv5::verif::lru::Lru;
+use std::collections::{BTreeSet, HashMap};
+use std::panic::AssertUnwindSafe;
+use std::time::{Duration, Instant};
 
-#[derive(Default)]
-pub struct LruRunner;
+/// Keys are drawn from `0..KEYSPACE`; the monitors probe all of them with `peek`.
+const KEYSPACE: u64 = 8;
 
-impl Runner for LruRunner {
-    fn reset(&mut self) {}
-    fn step(&mut self, _line: &str, out: &mut Vec<String>, _stats: &mut Stats) {
-        out.push("bad-op".into());
+// ---------------------------------------------------------------------------------------------
+// bookkeeping of stamps (generator: where may a sleep go; runner: which clock pairs matter)
+
+#[derive(Clone)]
+struct Stamps {
+    /// (key, scripted stamp, index of the stamping op, scripted time of the insert), front first.
+    entries: Vec<(u64, u64, usize, u64)>,
+    ttl: u64,
+    cap: Option<usize>,
+}
+
+impl Stamps {
+    fn new(ttl: u64, cap: Option<usize>) -> Self {
+        Stamps { entries: Vec::new(), ttl, cap }
+    }
+    fn has(&self, k: u64) -> bool {
+        self.entries.iter().any(|e| e.0 == k)
+    }
+    fn expired(&self, stamp: u64, t: u64) -> bool {
+        stamp + self.ttl < t
+    }
+    /// Returns true if an entry was evicted.
+    fn insert(&mut self, t: u64, k: u64, op: usize) -> bool {
+        self.entries.retain(|e| e.0 != k);
+        self.entries.push((k, t, op, t));
+        if let Some(c) = self.cap {
+            if self.entries.len() > c {
+                self.entries.remove(0);
+                return true;
+            }
+        }
+        false
+    }
+    /// 0 = vacant, 1 = expired (removed), 2 = hit (refreshed), 3 = hit more than one ttl after
+    /// the insert (kept alive by earlier hits).
+    fn touch(&mut self, t: u64, k: u64, op: usize) -> u8 {
+        match self.entries.iter().position(|e| e.0 == k) {
+            None => 0,
+            Some(i) => {
+                let e = self.entries.remove(i);
+                if self.expired(e.1, t) {
+                    1
+                } else {
+                    self.entries.push((k, t, op, e.3));
+                    if t > e.3 + self.ttl {
+                        3
+                    } else {
+                        2
+                    }
+                }
+            }
+        }
+    }
+    fn remove(&mut self, k: u64) {
+        self.entries.retain(|e| e.0 != k);
+    }
+    fn sweep(&mut self, t: u64) -> usize {
+        let mut n = 0;
+        while let Some(f) = self.entries.first() {
+            if !self.expired(f.1, t) {
+                break;
+            }
+            self.entries.remove(0);
+            n += 1;
+        }
+        n
     }
 }
 
-pub fn gen_case(_rng: &mut Rng, _tier: &str, _profile: &str, _stats: &mut Stats) -> Vec<String> {
-    Vec::new()
+// ---------------------------------------------------------------------------------------------
+// runner
+
+struct Live {
+    cache: Lru,
+    start: Instant,
+    ttl: u64,
+    cap: Option<usize>,
+    stamps: Stamps,
+    /// Real clock around op `i`: (just before the first call, just after the last call).
+    marks: Vec<(Instant, Instant)>,
+    /// Monitor ledger, from the implementation's observable behaviour only: key → (scripted time,
+    /// sequence number) of the last insert / last `get`/`get_mut` that returned a value.
+    last_use: HashMap<u64, (u64, u64)>,
+    seq: u64,
+}
+
+#[derive(Default)]
+pub struct LruRunner {
+    history: Vec<String>,
+    scale: u64,
+    live: Option<Live>,
+}
+
+fn show_opt(v: Option<u64>) -> String {
+    match v {
+        Some(v) => format!("some {}", v),
+        None => "none".to_string(),
+    }
+}
+
+fn visible(cache: &Lru) -> Option<BTreeSet<u64>> {
+    no_panic(AssertUnwindSafe(|| (0..KEYSPACE).filter(|k| cache.peek(k).is_some()).collect()))
+}
+
+impl LruRunner {
+    /// Executes `history[idx]` on the live cache.  Returns (reply, monitor lines, clock agreed).
+    fn exec(&mut self, idx: usize, stats: Option<&mut Stats>) -> (String, Vec<String>, bool) {
+        let line = self.history[idx].clone();
+        let t: Vec<&str> = line.split(' ').collect();
+        let mut mons = Vec::new();
+        let num = |s: &str| s.parse::<u64>().ok();
+        if let ["cnew", ttl, cap] = t.as_slice() {
+            let (Some(ttl), Some(cap)) = (num(ttl), if *cap == "none" { Some(None) } else { num(cap).map(|c| Some(c as usize)) }) else {
+                return ("bad-op".into(), mons, true);
+            };
+            let scale = self.scale.max(1);
+            let now = Instant::now();
+            self.live = Some(Live {
+                cache: Lru::new(Duration::from_millis(ttl * scale), cap),
+                start: now,
+                ttl,
+                cap,
+                stamps: Stamps::new(ttl, cap),
+                marks: vec![(now, now)],
+                last_use: HashMap::new(),
+                seq: 0,
+            });
+            return ("ok".into(), mons, true);
+        }
+        let scale = self.scale.max(1);
+        let Some(lv) = self.live.as_mut() else {
+            return ("bad-op".into(), mons, true);
+        };
+        // parse
+        let (name, ts, k, v) = match t.as_slice() {
+            [n @ ("cins" | "cgm"), ts, k, v] => (*n, num(ts), num(k), num(v)),
+            [n @ ("cget" | "cpeek" | "crm"), ts, k] => (*n, num(ts), num(k), Some(0)),
+            [n @ ("clen" | "csweep"), ts] => (*n, num(ts), Some(0), Some(0)),
+            _ => return ("bad-op".into(), mons, true),
+        };
+        let (Some(ts), Some(k), Some(v)) = (ts, k, v) else {
+            return ("bad-op".into(), mons, true);
+        };
+        // real time: wait for the scripted instant
+        let target = lv.start + Duration::from_millis(ts * scale);
+        let now = Instant::now();
+        if target > now {
+            std::thread::sleep(target - now);
+        }
+        let before = Instant::now();
+        let mut st = stats;
+        let mut bump = |s: &str| {
+            if let Some(st) = st.as_mut() {
+                st.bump(s)
+            }
+        };
+        let ttl = lv.ttl;
+        let cache = &mut lv.cache;
+        let mut panicked = false;
+        let reply = match name {
+            "cins" => {
+                let vis_before = visible(cache);
+                let len_before = no_panic(AssertUnwindSafe(|| cache.len()));
+                if no_panic(AssertUnwindSafe(|| cache.insert(k, v))).is_none() {
+                    panicked = true;
+                }
+                let vis_after = visible(cache);
+                let len_after = no_panic(AssertUnwindSafe(|| cache.len()));
+                if let (Some(vb), Some(va), Some(la)) = (vis_before, vis_after, len_after) {
+                    if !va.contains(&k) && lv.cap != Some(0) && k < KEYSPACE {
+                        mons.push(format!("!MON C15 inserted-key-missing key={} cap={:?}", k, lv.cap));
+                    }
+                    let gone: Vec<u64> = vb.iter().filter(|x| **x != k && !va.contains(x)).cloned().collect();
+                    if !gone.is_empty() {
+                        bump("c.ins.evicted-visible");
+                        // the least recently used visible key, by the ledger
+                        let expected = if vb.contains(&k) {
+                            None
+                        } else {
+                            vb.iter().filter_map(|x| lv.last_use.get(x).map(|u| (u.1, *x))).min().map(|m| m.1)
+                        };
+                        if gone.iter().any(|g| Some(*g) != expected) {
+                            mons.push(format!(
+                                "!MON C15 evicted-not-lru inserted={} disappeared={:?} least-recently-used={:?}",
+                                k, gone, expected
+                            ));
+                        }
+                        if let Some(c) = lv.cap {
+                            if la < c {
+                                mons.push(format!(
+                                    "!MON C15 evicted-below-capacity inserted={} disappeared={:?} len={} cap={}",
+                                    k, gone, la, c
+                                ));
+                            }
+                        }
+                        for g in &gone {
+                            lv.last_use.remove(g);
+                        }
+                    }
+                    if let (Some(lb), Some(c)) = (len_before, lv.cap) {
+                        if lb == c && c > 0 && !vb.contains(&k) && vb.len() == c {
+                            bump("c.ins.full-no-expired");
+                        }
+                    }
+                }
+                lv.seq += 1;
+                lv.last_use.insert(k, (ts, lv.seq));
+                "ok".to_string()
+            }
+            "cget" | "cgm" | "cpeek" => {
+                let r: Option<Option<u64>> = match name {
+                    "cget" => no_panic(AssertUnwindSafe(|| cache.get(&k).copied())),
+                    "cgm" => no_panic(AssertUnwindSafe(|| {
+                        cache.get_mut(&k).map(|slot| {
+                            let old = *slot;
+                            *slot = v;
+                            old
+                        })
+                    })),
+                    _ => no_panic(AssertUnwindSafe(|| cache.peek(&k).copied())),
+                };
+                match r {
+                    None => {
+                        panicked = true;
+                        String::new()
+                    }
+                    Some(r) => {
+                        if r.is_some() {
+                            if let Some((used, _)) = lv.last_use.get(&k) {
+                                if ts > *used + ttl {
+                                    mons.push(format!(
+                                        "!MON C15 stale-value-returned op={} key={} idle={}ms ttl={}ms",
+                                        name,
+                                        k,
+                                        ts - *used,
+                                        ttl
+                                    ));
+                                }
+                            }
+                        }
+                        if name != "cpeek" {
+                            if r.is_some() {
+                                lv.seq += 1;
+                                lv.last_use.insert(k, (ts, lv.seq));
+                            } else {
+                                lv.last_use.remove(&k);
+                            }
+                        }
+                        show_opt(r)
+                    }
+                }
+            }
+            "clen" => match no_panic(AssertUnwindSafe(|| cache.len())) {
+                None => {
+                    panicked = true;
+                    String::new()
+                }
+                Some(n) => n.to_string(),
+            },
+            "crm" => match no_panic(AssertUnwindSafe(|| cache.remove(&k))) {
+                None => {
+                    panicked = true;
+                    String::new()
+                }
+                Some(r) => {
+                    lv.last_use.remove(&k);
+                    show_opt(r)
+                }
+            },
+            _ => match no_panic(AssertUnwindSafe(|| cache.remove_expired_values())) {
+                None => {
+                    panicked = true;
+                    String::new()
+                }
+                Some(ks) => {
+                    for k in &ks {
+                        lv.last_use.remove(k);
+                    }
+                    if ks.is_empty() {
+                        "keys -".to_string()
+                    } else {
+                        format!("keys {}", ks.iter().map(|k| k.to_string()).collect::<Vec<_>>().join(","))
+                    }
+                }
+            },
+        };
+        // bound, after every op
+        if let (Some(n), Some(c)) = (no_panic(AssertUnwindSafe(|| cache.len())), lv.cap) {
+            if n > c {
+                mons.push(format!("!MON C15 len-exceeds-capacity op={} len={} cap={}", name, n, c));
+            }
+        }
+        let after = Instant::now();
+        // did the real clock classify every (stamp, now) pair like the script?
+        let ttl_real = Duration::from_millis(ttl * scale);
+        let mut clock_ok = true;
+        for e in &lv.stamps.entries {
+            let (b_i, a_i) = lv.marks[e.2];
+            if lv.stamps.expired(e.1, ts) {
+                clock_ok &= before.saturating_duration_since(a_i) > ttl_real;
+            } else {
+                clock_ok &= after.saturating_duration_since(b_i) <= ttl_real;
+            }
+        }
+        while lv.marks.len() <= idx {
+            lv.marks.push((before, after));
+        }
+        lv.marks[idx] = (before, after);
+        // distribution + stamp bookkeeping
+        match name {
+            "cins" => {
+                if lv.stamps.insert(ts, k, idx) {
+                    bump("c.ins.evict");
+                }
+                bump("c.ins");
+            }
+            "cget" | "cgm" => match lv.stamps.touch(ts, k, idx) {
+                0 => bump("c.get.vacant"),
+                1 => bump("c.get.expired"),
+                2 => bump("c.get.hit"),
+                _ => {
+                    bump("c.get.hit");
+                    bump("c.get.hit-kept-alive-beyond-ttl")
+                }
+            },
+            "cpeek" => {
+                let hit = lv.stamps.entries.iter().find(|e| e.0 == k).map(|e| !lv.stamps.expired(e.1, ts));
+                bump(match hit {
+                    None => "c.peek.vacant",
+                    Some(false) => "c.peek.expired",
+                    Some(true) => "c.peek.hit",
+                });
+            }
+            "crm" => {
+                bump(if lv.stamps.has(k) { "c.rm.present" } else { "c.rm.vacant" });
+                lv.stamps.remove(k);
+            }
+            "csweep" => {
+                bump(if lv.stamps.sweep(ts) > 0 { "c.sweep.nonempty" } else { "c.sweep.empty" });
+            }
+            _ => bump("c.len"),
+        }
+        if panicked {
+            return ("panic".into(), mons, clock_ok);
+        }
+        (reply, mons, clock_ok)
+    }
+}
+
+impl Runner for LruRunner {
+    fn reset(&mut self) {
+        self.history.clear();
+        self.scale = 1;
+        self.live = None;
+    }
+
+    fn step(&mut self, line: &str, out: &mut Vec<String>, stats: &mut Stats) {
+        if self.scale == 0 {
+            self.scale = 1;
+        }
+        self.history.push(line.to_string());
+        let idx = self.history.len() - 1;
+        let (mut reply, mut mons, mut ok) = self.exec(idx, Some(&mut *stats));
+        let mut attempts = 0;
+        while !ok && attempts < 3 {
+            // the real clock disagreed with the script: redo the case with doubled durations
+            attempts += 1;
+            self.scale *= 2;
+            stats.bump("c.clock.rerun");
+            ok = true;
+            for i in 0..=idx {
+                let (r, m, o) = self.exec(i, None);
+                ok &= o;
+                if i == idx {
+                    reply = r;
+                    mons = m;
+                }
+            }
+        }
+        if !ok {
+            stats.bump("c.clock.unresolved");
+        }
+        out.extend(mons);
+        out.push(reply);
+    }
+}
+
+// ---------------------------------------------------------------------------------------------
+// generator
+
+pub fn gen_case(rng: &mut Rng, tier: &str, _profile: &str, stats: &mut Stats) -> Vec<String> {
+    let ttl: u64 = *rng.pick(&[20, 20, 24, 30, 30, 40, 60]);
+    let cap: Option<usize> = match rng.below(24) {
+        0 => Some(0),
+        1..=4 => None,
+        _ => Some(rng.range(1, 4) as usize),
+    };
+    let nkeys: u64 = match cap {
+        Some(c) => (c as u64 + 2).clamp(3, 6),
+        None => 5,
+    };
+    let keepalive = rng.chance(1, 3);
+    let mut long_budget = if rng.chance(3, 5) { 1 } else { 0 };
+    let drain = rng.chance(1, 2);
+    let nops = if tier == "thorough" { rng.range(6, 18) } else { rng.range(6, 14) };
+    stats.bump(&format!("gen.cap.{}", cap.map(|c| c.to_string()).unwrap_or_else(|| "none".into())));
+    if keepalive {
+        stats.bump("gen.keepalive");
+    }
+    let mut ops = vec![format!("cnew {} {}", ttl, cap.map(|c| c.to_string()).unwrap_or_else(|| "none".into()))];
+    let mut st = Stamps::new(ttl, cap);
+    let mut t: u64 = 0;
+    let short_max = (ttl * 3 / 10).max(1);
+    let fresh_max = ttl * 6 / 10;
+    let long = |rng: &mut Rng| 2 * ttl + 20 + rng.below(8);
+
+    // applies an op to the bookkeeping and records the line
+    fn emit(ops: &mut Vec<String>, st: &mut Stamps, line: String) {
+        let idx = ops.len();
+        let f: Vec<&str> = line.split(' ').collect();
+        let n = |i: usize| f[i].parse::<u64>().unwrap();
+        match f[0] {
+            "cins" => {
+                st.insert(n(1), n(2), idx);
+            }
+            "cget" | "cgm" => {
+                st.touch(n(1), n(2), idx);
+            }
+            "crm" => st.remove(n(2)),
+            "csweep" => {
+                st.sweep(n(1));
+            }
+            _ => {}
+        }
+        ops.push(line);
+    }
+
+    let mut after_long = false;
+    for i in 0..nops {
+        // 1. passage of time
+        let r = rng.below(100);
+        let short_p = if keepalive { 45 } else { 25 };
+        if r < short_p {
+            let d = if keepalive { short_max } else { rng.range(1, short_max) };
+            let blockers: Vec<u64> = st
+                .entries
+                .iter()
+                .filter(|e| !st.expired(e.1, t) && t + d - e.1 > fresh_max)
+                .map(|e| e.0)
+                .collect();
+            if blockers.is_empty() {
+                t += d;
+                stats.bump("gen.sleep.short");
+            } else if keepalive || rng.chance(1, 3) {
+                // refresh (or drop) everything that would drift towards the ttl, then sleep
+                for k in blockers {
+                    let line = match rng.below(10) {
+                        0 => format!("crm {} {}", t, k),
+                        1..=2 => format!("cins {} {} {}", t, k, rng.below(1000)),
+                        3..=5 => format!("cgm {} {} {}", t, k, rng.below(1000)),
+                        _ => format!("cget {} {}", t, k),
+                    };
+                    emit(&mut ops, &mut st, line);
+                    stats.bump("gen.refresh");
+                }
+                t += d;
+                stats.bump("gen.sleep.short");
+            }
+        } else if r < short_p + 12 && long_budget > 0 && i >= 2 {
+            t += long(rng);
+            long_budget -= 1;
+            after_long = true;
+            stats.bump("gen.sleep.long");
+        }
+        // 2. the op
+        let present: Vec<u64> = st.entries.iter().map(|e| e.0).collect();
+        let absent: Vec<u64> = (0..nkeys).filter(|k| !present.contains(k)).collect();
+        let hit_key = |rng: &mut Rng, p_present: u64| -> u64 {
+            if !present.is_empty() && rng.chance(p_present, 100) {
+                *rng.pick(&present)
+            } else {
+                rng.below(nkeys)
+            }
+        };
+        let pick = if i == 0 && rng.chance(9, 10) || i == 1 && rng.chance(3, 5) {
+            0 // start by filling
+        } else if after_long && rng.chance(7, 10) {
+            rng.range(30, 75) // a read right after the long idle
+        } else {
+            rng.below(100)
+        };
+        let p_present = if after_long { 95 } else { 75 };
+        after_long = false;
+        let line = match pick {
+            0..=29 => {
+                let k = if !absent.is_empty() && rng.chance(3, 5) { *rng.pick(&absent) } else { hit_key(rng, 80) };
+                format!("cins {} {} {}", t, k, rng.below(1000))
+            }
+            30..=49 => format!("cget {} {}", t, hit_key(rng, p_present)),
+            50..=61 => format!("cgm {} {} {}", t, hit_key(rng, p_present), rng.below(1000)),
+            62..=75 => format!("cpeek {} {}", t, hit_key(rng, p_present)),
+            76..=81 => format!("clen {}", t),
+            82..=89 => format!("crm {} {}", t, hit_key(rng, 70)),
+            _ => format!("csweep {}", t),
+        };
+        emit(&mut ops, &mut st, line);
+    }
+    // 3. content and order at the end: after a long idle the sweep returns every key, front first
+    if drain {
+        if rng.chance(1, 2) {
+            for k in 0..nkeys {
+                ops.push(format!("cpeek {} {}", t, k));
+            }
+        }
+        ops.push(format!("clen {}", t));
+        t += long(rng);
+        if rng.chance(1, 3) {
+            let present: Vec<u64> = st.entries.iter().map(|e| e.0).collect();
+            if !present.is_empty() {
+                // a stale read before the sweep: must be a miss
+                let k = *rng.pick(&present);
+                let line = if rng.chance(1, 2) { format!("cget {} {}", t, k) } else { format!("cpeek {} {}", t, k) };
+                emit(&mut ops, &mut st, line);
+            }
+        }
+        ops.push(format!("csweep {}", t));
+        ops.push(format!("clen {}", t));
+        stats.bump("gen.drain");
+    }
+    stats.add("gen.scripted-ms", t);
+    ops
 }
